@@ -17,7 +17,8 @@ RULE = ("seeded plans: 1-2 reader actors (own handle, or a handle shared with a 
         "variants} against 1-3 writers doing appends, two-append transactions (optionally with a pause between the "
         "two writes), file deletes, explicit rollbacks and commits forced to fail (schema-divergent append; one "
         "injected pre-commit OSError / S3 error); table pre-seeded with 0-2 snapshots; local and CAS-S3; scheduler "
-        "random/PCT at seam granularity. Oracle: a read with flip interval [i, r] must return exactly the row "
+        "random/PCT at seam granularity, plus targeted holds parking a reader after its n-th pointer/metadata/manifest/data "
+        "read until a writer has finished an operation. Oracle: a read with flip interval [i, r] must return exactly the row "
         "multiset of the committed state S_j for some j in [i, r]; per handle the feasible j is non-decreasing; "
         "fault-free reads never raise. Distinct = SHA-1 of write/lock/pointer events; non-trivial = at least one "
         "read overlapped a pointer flip (r > i).")
@@ -44,8 +45,27 @@ READS = [
 ]
 
 
+def gen_revert(rng: random.Random, backend: str) -> dict:
+    """Directed profile: one reader repeats ONE read through its handle while a writer commits and then takes the
+    commit back (delete of the current snapshot); the reader is parked inside its first read across the commit."""
+    one = dict(rng.choice(READS))
+    reader = {"name": "r0", "proc": "pr0", "ops": [dict(one) for _ in range(rng.randint(2, 4))], "role": "reader"}
+    w_ops = [{"kind": "append", "tag": "w0.x", "n": rng.randint(1, 2)}, {"kind": "delete_snapshot", "k": -1}]
+    if rng.random() < 0.4:
+        w_ops.append({"kind": "append", "tag": "w0.y", "n": 1})
+    writer = {"name": "w0", "proc": "pw0", "ops": w_ops, "role": "writer"}
+    rd = "open" if backend == "local" else "get"
+    pol = common.gen_policy(rng)
+    pol["holds"] = [{"actor": "r0", "op": rd, "cls": rng.choice(["META", "META", "HINT", "MLIST"]),
+                     "nth": rng.choice([1, 2, 2, 3]), "until": "w0", "until_ops": 1}]
+    setup = [{"kind": "append", "tag": f"s{k}", "n": rng.randint(1, 2)} for k in range(rng.choice([1, 1, 2]))]
+    return {"backend": backend, "setup": setup, "actors": [writer, reader], "policy": pol, "faults": [], "profile": "revert"}
+
+
 def gen(rng: random.Random, tier: str, idx: int) -> dict:
     backend = "local" if rng.random() < 0.65 else "s3"
+    if idx % 5 == 4:
+        return gen_revert(rng, backend)
     nw = rng.randint(1, 3)
     actors = []
     for i in range(nw):
@@ -62,14 +82,25 @@ def gen(rng: random.Random, tier: str, idx: int) -> dict:
             elif r < 0.75:
                 ops.append({"kind": "delete_file", "tag": tag, "k": rng.randint(0, 4),
                             "with_append": rng.random() < 0.4})
-            elif r < 0.85:
+            elif r < 0.82:
                 ops.append({"kind": "rollback", "tag": tag, "n": 1})
+            elif r < 0.90:
+                ops.append({"kind": "delete_snapshot", "k": rng.choice([-1, -1, 0, 1])})
             else:
                 ops.append({"kind": "bad_append", "tag": tag})
+        if rng.random() < 0.2:
+            # commit, then take it back: the table returns to a snapshot it has been at before
+            ops = [{"kind": "append", "tag": f"w{i}.x", "n": rng.randint(1, 2)}, {"kind": "delete_snapshot", "k": -1}] + ops[:1]
         actors.append({"name": f"w{i}", "proc": f"pw{i}", "ops": ops, "role": "writer"})
     nr = rng.randint(1, 2)
     for i in range(nr):
-        ops = [dict(rng.choice(READS)) for _ in range(rng.randint(2, 5))]
+        if rng.random() < 0.35:
+            # the same read repeated through one handle (per-handle caches / memos are keyed by what an earlier
+            # read of the same kind saw)
+            one = dict(rng.choice(READS))
+            ops = [dict(one) for _ in range(rng.randint(2, 4))]
+        else:
+            ops = [dict(rng.choice(READS)) for _ in range(rng.randint(2, 5))]
         shared = rng.random() < 0.25
         actors.append({"name": f"r{i}", "proc": "pw0" if shared else f"pr{i}", "ops": ops, "role": "reader"})
     faults = []
@@ -82,7 +113,17 @@ def gen(rng: random.Random, tier: str, idx: int) -> dict:
             faults.append({"kind": "error", "actor": f"w{wi}", "op": "put",
                            "cls": rng.choice(["MANIFEST", "MLIST", "META"]), "nth": 1, "exc": "AccessDenied"})
     setup = [{"kind": "append", "tag": f"s{k}", "n": rng.randint(1, 2)} for k in range(rng.choice([0, 0, 1, 2]))]
-    return {"backend": backend, "setup": setup, "actors": actors, "policy": common.gen_policy(rng), "faults": faults}
+    pol = common.gen_policy(rng)
+    if rng.random() < 0.45:
+        # park a reader in the middle of a read (after its n-th pointer / metadata / manifest-list / data read)
+        # until a writer has finished an operation: the read then overlaps a pointer flip for certain
+        if backend == "local":
+            site = rng.choice([("open", "META"), ("open", "HINT"), ("open", "MLIST"), ("open", "MANIFEST"), ("open", "DATA")])
+        else:
+            site = rng.choice([("get", "META"), ("get", "HINT"), ("get", "MLIST"), ("get", "MANIFEST"), ("get", "DATA")])
+        pol["holds"] = [{"actor": f"r{rng.randrange(nr)}", "op": site[0], "cls": site[1], "nth": rng.choice([1, 2, 2, 3, 4]),
+                         "until": f"w{rng.randrange(nw)}", "until_ops": 1}]
+    return {"backend": backend, "setup": setup, "actors": actors, "policy": pol, "faults": faults}
 
 
 def shrink(plan: dict):
